@@ -33,11 +33,33 @@ CHECKS = {
           "Same histories as C10; after every operation every public query (direct/transitive edges, ordered incoming/outgoing adjacency with data, both descendant iterators, topo_cmp, removal results) is compared for all ordered pairs of live and dead handles with the reference graph. Evidence over the sampled histories.",
           "Trusts the naive reference graph; bounded to <= 12 live nodes and <= 120 operations per history.", "5/C11"),
   "C16": ("e1", "deterministic simulation with a seeded-hasher seam: each history replayed under other hash seeds, after unrelated instances, in a fresh thread and with OS-random seeds; complete event logs compared",
-          "Every scenario of the top-down and bottom-up mixes is replayed four times under perturbations that must not matter (hash seed, unrelated instances before, fresh thread, OS-random seeds); the complete unified event log (task-side, checker-side, resource-side and tracker events with stamps) must be identical.", E1_NOTE, "5/C16"),
+          "Every scenario of the top-down and bottom-up mixes is replayed under perturbations that must not matter (hash seed, unrelated instances before, fresh thread, OS-random seeds); the complete unified event log (task-side, checker-side, resource-side and tracker events with stamps) must be identical.", E1_NOTE, "5/C16"),
   "C17": ("e1", "deterministic simulation: full-fidelity recording tracker cross-checked against task-side and checker-side logs; composite children compared; EventTracker and helpers vs reference scan",
-          "In every scenario the tracker is Composite(Rec, Composite(EventTracker, Rec)); the two recorders must receive identical streams, the stream must be stack-nested, executions / check verdicts / require outputs must match the task-side and checker-side logs, and EventTracker contents, indices and every helper must agree with a reference scan.", E1_NOTE, "5/C17"),
-  "C19": ("e1", "deterministic simulation with crash injection: panics at arbitrary ticks (task ops, write closures, checker calls), instance kept and used again; later sessions vs from-scratch reference",
-          "Class-W scenarios with injected crashes at seeded ticks inside sessions (any operation of any task at any depth, inside write functions and checker calls); the instance is reused: every later top-down session must return from-scratch results, abort only for an existing violation or with a listed stale-edge signature, and never with an internal error.", E1_NOTE, "5/C19"),
+          "In every scenario the tracker is Composite(Rec, Composite(EventTracker, Rec)); the two recorders must receive identical streams, the stream must be stack-nested (also under injected checker errors), executions / check verdicts / require outputs must match the task-side and checker-side logs, and EventTracker contents, indices and every helper must agree with a reference scan.", E1_NOTE, "5/C17"),
+  "C18": ("e1", "deterministic simulation with fault injection: seeded checker errors at validation time (k-th check of a session, or all checks of a resource), top-down and bottom-up",
+          "Class-W scenarios with injected checker errors; the owner of the failing dependency must be re-executed or scheduled and never reused, each error must appear exactly once and in order in Session::dependency_check_errors, the build must not abort, and results must still equal the from-scratch build.", E1_NOTE, "5/C18"),
+  "C19": ("e1", "deterministic simulation with crash injection: panics at arbitrary ticks (task ops, write closures, checker calls) and diagnosed violations, instance kept and used again; later sessions vs from-scratch reference",
+          "Class-W/X/V scenarios with injected crashes at seeded ticks inside sessions and with diagnosed violations; the instance is reused: every later top-down session must return from-scratch results, abort only for an existing violation or with a listed stale-edge signature, and never with an internal error.", E1_NOTE, "5/C19"),
+  "C20": ("e1", "deterministic simulation: role-inverting program class V and well-formed class W; every diagnostic abort judged against a from-scratch build of all known tasks and against the recorded dependencies (stale-edge analysis)",
+          "Class-W histories must never abort; class-V histories (well-formed in every state, roles invert across states) may abort only with a stale-edge signature that is listed as a known finding; unexplained aborts, internal errors and ordering failures are violations.", E1_NOTE, "5/C20"),
+  "C05": ("e1", "deterministic simulation: injected hidden reads / writes (class X) with online monitors on the ledger of latest executions",
+          "Class-X scenarios (one injected read or write without the required task dependency) in top-down and bottom-up histories; a read or write that returns while the records contain a reader without a require path to the writer is a missed detection; aborts for writes through the context must precede modification.", E1_NOTE, "5/C05"),
+  "C06": ("e1", "deterministic simulation: injected second writers (class X) and repeatedly re-executed writers (class W, also after crashes) with online monitors",
+          "A write that returns while another task is the recorded writer is a missed detection; a returning build leaves at most one writer per resource; a re-executed writer is never reported, however it is reached.", E1_NOTE, "5/C06"),
+  "C07": ("e1", "deterministic simulation: injected back-requires (class X), execution-stack monitor, depth and execution-count guards",
+          "A require of a task that is still executing must not return and must be diagnosed as a cyclic dependency before any task is entered twice; recursion is bounded by guards that must never fire.", E1_NOTE, "5/C07"),
+  "C08": ("e1", "deterministic simulation + guarded store dump: dump compared with the ledger of latest executions after every returning session; serial-numbered stamps identify the execution that created a dependency",
+          "After every returning session the dumped dependency store must equal the ledger (targets, kinds, checkers, stamps, order, outputs); no check may be made against a stamp of an earlier execution. Two incompleteness findings for several dependencies on one target are listed.", E1_NOTE + " Uses the read-only store-dump hook.", "5/C08"),
+  "C09": ("e1", "deterministic simulation: instrumented checker families (exact, parity, exists, version, threshold, always) and delegating output checkers; stamp route / timing and verdict use checked from the checker-side log",
+          "Stamps must be taken through the documented route at the documented time (reader handed to the task, after the write function, from the returned output); every verdict of a checker decides re-execution exactly; coarse checkers ignore what they must ignore.", E1_NOTE, "5/C09"),
+  "C13": ("e3", "seeded path-state histories on the real filesystem with explicit modification times and faults between write and stamp",
+          "Seeded histories of one path through absent / file / directory states with explicit mtimes; the three stamp routes of the three checkers must agree, remembered stamps must check inconsistent exactly when the documented aspect differs, readers stay fresh, writes create / truncate / refuse directories. Evidence over sampled histories on this machine's filesystem.",
+          "Real kernel filesystem (tmpfs or temp dir); the clock is removed by setting every mtime explicitly; directory iteration order is the kernel's.", "5/C13"),
+  "C14": ("e4", "seeded operation histories over the map resource and typed resource state in one Pie vs a map-of-maps model",
+          "After every operation the returned value and the complete observable state of every resource type must equal the model; equality-checker verdicts for remembered stamps must match; three stamp routes agree.",
+          "Trusts the map-of-maps model; three key types, two further resource types, three state types.", "5/C14"),
+  "C15": ("e1", "deterministic simulation over type families with identical representation, hash and Debug text (incl. Box/Rc wrappers of one task type) + direct trait-object equality probes",
+          "Programs mix seven task families and two resource families with coinciding ids; equal keys must share one node and one execution, different types must never share an output, a dependency or a node (from-scratch outputs, store dump), and trait-object equality must agree with (type, value) for all key pairs.", E1_NOTE, "5/C15"),
 }
 
 NOT_APPLICABLE = {
